@@ -535,6 +535,121 @@ func isFreshObject(v ssa.Value) bool {
 	return false
 }
 
+// allocOf: the allocation a fresh base value denotes.
+func allocOf(v ssa.Value) *ssa.Alloc {
+	v = strip(v)
+	switch x := v.(type) {
+	case *ssa.Alloc:
+		return x
+	case *ssa.FieldAddr:
+		return allocOf(x.X)
+	case *ssa.UnOp:
+		if x.Op == token.MUL {
+			if al, ok := x.X.(*ssa.Alloc); ok {
+				st, zero, ok := reachingStores(al, x)
+				if ok && !zero && len(st) == 1 {
+					return allocOf(st[0].Val)
+				}
+			}
+		}
+	}
+	return nil
+}
+
+// publicationsOf: the instructions by which the function that allocated the object hands it to another goroutine: a go
+// statement whose receiver, argument or captured variable it is (directly, or through the local variable that holds it).
+func publicationsOf(base ssa.Value) []ssa.Instruction {
+	al := allocOf(base)
+	if al == nil {
+		return nil
+	}
+	var out []ssa.Instruction
+	holders := map[ssa.Value]bool{al: true}
+	// local variables that hold the pointer
+	for _, ref := range *al.Referrers() {
+		if st, ok := ref.(*ssa.Store); ok && st.Val == ssa.Value(al) {
+			if cell, ok := st.Addr.(*ssa.Alloc); ok {
+				holders[cell] = true
+				for _, r2 := range *cell.Referrers() {
+					if ld, ok := r2.(*ssa.UnOp); ok && ld.Op == token.MUL {
+						holders[ld] = true
+					}
+				}
+			}
+		}
+	}
+	for _, b := range al.Parent().Blocks {
+		for _, ins := range b.Instrs {
+			ci, ok := ins.(ssa.CallInstruction)
+			if !ok {
+				continue
+			}
+			if _, isDefer := ins.(*ssa.Defer); isDefer {
+				continue
+			}
+			hit := false
+			for _, a := range ci.Common().Args {
+				if holders[a] || holders[strip(a)] {
+					hit = true
+				}
+			}
+			if mc, ok := ci.Common().Value.(*ssa.MakeClosure); ok {
+				for _, bnd := range mc.Bindings {
+					if holders[bnd] {
+						hit = true
+					}
+				}
+			}
+			if !hit {
+				continue
+			}
+			if _, isGo := ins.(*ssa.Go); isGo {
+				out = append(out, ins)
+				continue
+			}
+			// a synchronous call of a function of the repository that starts goroutines itself (w.Start(..))
+			if sc := ci.Common().StaticCallee(); sc != nil && startsGoroutine(sc, 0, map[*ssa.Function]bool{}) {
+				out = append(out, ins)
+			}
+		}
+	}
+	return out
+}
+
+// startsGoroutine: the function (or a function of the repository it calls, or one of its literals) contains a go statement.
+func startsGoroutine(f *ssa.Function, d int, seen map[*ssa.Function]bool) bool {
+	if f == nil || f.Blocks == nil || seen[f] || d > 3 || f.Pkg == nil || !strings.HasPrefix(f.Pkg.Pkg.Path(), modPath) {
+		return false
+	}
+	seen[f] = true
+	for _, g := range withAnon(f) {
+		for _, c := range callsIn(g) {
+			if _, isGo := c.(*ssa.Go); isGo {
+				return true
+			}
+			if sc := c.Common().StaticCallee(); sc != nil && startsGoroutine(sc, d+1, seen) {
+				return true
+			}
+		}
+	}
+	return false
+}
+
+// publishedBefore: some publication of the object can precede instruction at.
+func publishedBefore(base ssa.Value, at ssa.Instruction) bool {
+	for _, pub := range publicationsOf(base) {
+		if pub.Parent() != at.Parent() {
+			continue
+		}
+		pa := posOf(pub)
+		hit, _ := searchFrom(pa.b, pa.i+1, searchOpts{bad: func(i ssa.Instruction) bool { return i == at }})
+		if hit != nil {
+			return true
+		}
+	}
+	return false
+}
+
 func checkC19(p *Prog, res *Result, tier string) {
 	res.Explanation = "A static lockset (guarded-by) analysis over the repository's shared state. R1 for every struct type that owns a mutex, each field that is written (or whose map / slice / container value is mutated) after construction must be accessed with one and the same mutex of the owning object held — exclusively for writes, at least shared for reads; lock contexts are computed per function with dominance, deferred unlocks, conditional locking on a constant bool argument specialised per call site, held-on-entry as the intersection over all resolved call sites, and the lock hand-over from BeginBatchWrite to the batch's methods until Commit. R2 a slice window into a guarded backing array must not leave its critical section. R3 elements of the in-process engine's skip list (and container/list elements) are dereferenced only under the store's lock. R4 fields of types without a mutex that are written after construction must be accessed through sync/atomic or appear in the frozen confinement table."
 	res.NotDecided = "races inside dependencies and inside byte slices handed to callers; object identity beyond the structural access path (two objects of one type are not distinguished); happens-before through channels is not modelled (accesses are judged by locks and atomics only)."
@@ -613,18 +728,37 @@ func checkC19(p *Prog, res *Result, tier string) {
 				if o == nil || isMutexType(fv.Type()) {
 					continue
 				}
-				if isFreshObject(fa.X) {
-					continue // constructor initialisation
+				// constructor initialisation: the object was allocated here and no goroutine has been handed it yet
+				fresh := isFreshObject(fa.X)
+				unpublished := func(at ssa.Instruction) bool { return fresh && !publishedBefore(fa.X, at) }
+				if fresh && unpublished(fa) && len(publicationsOf(fa.X)) == 0 {
+					continue
 				}
 				obj := objKey(p, fa.X)
 				for _, ref := range *fa.Referrers() {
 					switch x := ref.(type) {
 					case *ssa.Store:
-						if x.Addr == ssa.Value(fa) {
+						if x.Addr == ssa.Value(fa) && !unpublished(x) {
 							accs = append(accs, access{f, x, fv, obj, true, "store"})
 						}
 					case *ssa.UnOp:
 						if x.Op != token.MUL {
+							continue
+						}
+						if unpublished(x) {
+							// the field is read before the object is shared; what is done with the loaded map / slice
+							// later is judged where it is done
+							rd, wr, _ := classifyLoadedUses(x)
+							for _, i := range rd {
+								if !unpublished(i) {
+									accs = append(accs, access{f, i, fv, obj, false, "read of the loaded map/slice/container"})
+								}
+							}
+							for _, i := range wr {
+								if !unpublished(i) {
+									accs = append(accs, access{f, i, fv, obj, true, "mutation of the loaded map/slice/container"})
+								}
+							}
 							continue
 						}
 						accs = append(accs, access{f, x, fv, obj, false, "load"})
